@@ -236,10 +236,16 @@ func (h *vCommitHarness) open(memSize uint64, seed uint64) error {
 			}
 		}
 		origApply, origWrite := d.commit.env.apply, d.commit.env.write
+		// A pause AFTER apply (between commitApply and publish) widens the window of the known
+		// finding "flush of applied-but-unpublished batches" (see TestVCommitProbeElide); it is
+		// therefore off unless VERIF_POSTAPPLY=1.
+		postApply := vCommitEnvInt("VERIF_POSTAPPLY", 0) == 1
 		d.commit.env.apply = func(b *Batch, mem *memTable) error {
 			pause()
 			err := origApply(b, mem)
-			pause()
+			if postApply {
+				pause()
+			}
 			return err
 		}
 		d.commit.env.write = func(b *Batch, wg *sync.WaitGroup, e *error) (*memTable, error) {
@@ -295,7 +301,12 @@ func (h *vCommitHarness) commitOne(thr int, r *rand.Rand) {
 	for j := 0; j < h.K; j++ {
 		op := 1
 		if h.rich {
+			// merges are never issued to the group that receives ingests (the last one): an iterator that
+			// captured its readState before an ingest was installed may legitimately see a later merge
+			// without the ingested base value
 			switch x := r.IntN(10); {
+			case g == h.G-1 && x >= 8:
+				op = 1
 			case x < 6:
 				op = 1
 			case x < 8:
@@ -356,6 +367,9 @@ func (h *vCommitHarness) commitOne(thr int, r *rand.Rand) {
 func (h *vCommitHarness) ingestOne(thr int, r *rand.Rand, n int) {
 	d := h.d
 	g := r.IntN(h.G)
+	if h.rich {
+		g = h.G - 1
+	}
 	tok := int(h.tok.Add(1))
 	path := fmt.Sprintf("ext/ing-%d-%d.sst", thr, n)
 	f, err := h.fs.Create(path, vfs.WriteCategoryUnspecified)
@@ -818,6 +832,13 @@ func TestVCommitProbeElide(t *testing.T) {
 		}
 		defer d.Close()
 		key := []byte("k")
+		// an older flushed version, so that the later compaction has to rewrite (and may zero seqnums)
+		if err := d.Set(key, []byte("v0"), NoSync); err != nil {
+			t.Fatal(err)
+		}
+		if err := d.Flush(); err != nil {
+			t.Fatal(err)
+		}
 		if err := d.Set(key, []byte("v1"), NoSync); err != nil {
 			t.Fatal(err)
 		}
@@ -870,6 +891,29 @@ func TestVCommitProbeElide(t *testing.T) {
 			res["iter"] = "EMPTY"
 		}
 		it.Close()
+		// second symptom of the same window: a compaction to the bottom level zeroes the sequence
+		// number of the unpublished k@v2, which makes it visible to every reader before it is published
+		if err := d.Compact(context.Background(), []byte("a"), []byte("z"), false); err != nil {
+			res["compact"] = err.Error()
+		}
+		res["vis_after_compact"] = uint64(d.mu.versions.visibleSeqNum.Load())
+		v, closer, gerr = d.Get(key)
+		if gerr == nil {
+			res["get_after_compact"] = string(v[:2])
+			closer.Close()
+		} else {
+			res["get_after_compact"] = "ERR:" + gerr.Error()
+		}
+		snap := d.NewSnapshot()
+		res["snap_seq"] = uint64(snap.seqNum)
+		v, closer, gerr = snap.Get(key)
+		if gerr == nil {
+			res["snap_get_after_compact"] = string(v[:2])
+			closer.Close()
+		} else {
+			res["snap_get_after_compact"] = "ERR:" + gerr.Error()
+		}
+		snap.Close()
 		close(release)
 		res["commit_v2"] = fmt.Sprint(<-done)
 		v, closer, gerr = d.Get(key)
